@@ -1011,3 +1011,41 @@ def c16_r13(ctx: Ctx, rule):
 
 RULES.setdefault("C16", []).append(Rule("C16.R13", "source / destination kinds are told apart by capability (hasattr read / write), the same way at every entry point", 3, c16_r13, "F-SIB",
                                         "every file-like source kind deserialises, with and without an explicit format"))
+
+
+# ===================================================================================== C16.R14 format trial loop and option forwarding
+def c16_r14(ctx: Ctx, rule):
+    """(a) prov.read tries every registered format: its trial loop has no `break` (a failed attempt is passed over; leaving the loop
+    skips the formats not yet tried *and* the final TypeError).  (b) ProvDocument.serialize hands the caller's options to the
+    serializer on every destination kind: each serializer.serialize(...) call forwards the **kwargs parameter."""
+    res = RuleResult()
+    rq = "prov.read"
+    rf = ctx.fn(rq)
+    loops = [l for q2 in ctx.helper_closure(rq, 1) for l in walk_function(ctx.fn(q2).node) if isinstance(l, ast.For) and any(isinstance(c, ast.Call) and call_name(c) == "deserialize" for c in ast.walk(l))]
+    if not loops:
+        raise AnalysisError("prov.read: the loop over the registered formats was not found")
+    for l in loops:
+        brk = [b for st in l.body for b in ast.walk(st) if isinstance(b, ast.Break)]
+        res.ob("prov.read: the format trial loop never breaks (a failed attempt is passed over): %s" % (not brk))
+        for b in brk:
+            res.fail(rule.id, "trial-loop-left-early", ctx.loc(rq, b), "prov.read leaves the loop over the formats with `break`: the remaining formats are not tried and the final error is skipped",
+                     "prov.read(<XML or RDF source>) returns None instead of the document")
+    sq = M + ".ProvDocument.serialize"
+    sf = ctx.fn(sq)
+    kw = sf.node.args.kwarg.arg if sf.node.args.kwarg else None
+    calls = [c for q2 in ctx.helper_closure(sq, 2) for c in calls_in(ctx.fn(q2).node) if call_name(c) == "serialize" and isinstance(c.func, ast.Attribute) and "serializer" in norm(c.func.value)]
+    if not calls or kw is None:
+        raise AnalysisError("ProvDocument.serialize: serializer calls / **kwargs parameter not found")
+    for c in calls:
+        fwd = any(k.arg is None for k in c.keywords)
+        res.ob("ProvDocument.serialize: %s forwards the caller's options: %s" % (norm(c)[:60], fwd))
+        if not fwd:
+            res.fail(rule.id, "options-not-forwarded::%s" % norm(c)[:40], ctx.loc(sq, c), "%s drops the options (**%s) the other destination kinds pass on" % (norm(c)[:50], kw),
+                     "serialize('out.json', indent=2) writes the default rendering while serialize(indent=2) returns the indented one; rdf_format='turtle' is ignored for paths")
+    return res
+
+
+RULES.setdefault("C16", []).append(Rule("C16.R14", "prov.read tries every format; every destination kind gets the caller's serializer options", 3, c16_r14, "F-SIB",
+                                        "the destination kinds agree on the text; detection reaches every format"))
+RULES.setdefault("C17", []).append(Rule("C17.R7", "serializers convert text to bytes with explicit UTF-8 on whole contents (shared with C16.R2)", 8, c16_r2, "F-SIB",
+                                        "the named file holds the complete UTF-8 serialisation"))
